@@ -1,8 +1,10 @@
 import SamVerif.Props.C06
 import SamVerif.Props.C06b
 import SamVerif.Props.C06c
+import SamVerif.Props.C06d
+import SamVerif.Props.C06x
 /-! Axiom audit of every C06 property theorem (parsed by vlib/common.py). -/
-open SamVerif.IntRange SamVerif.Assign SamVerif.Gates SamVerif.Scope
+open SamVerif.IntRange SamVerif.Assign SamVerif.Gates SamVerif.Scope SamVerif.C06x
 #print axioms literal_error_iff
 #print axioms errors_aligned
 #print axioms above_range_always_rejected
@@ -39,3 +41,14 @@ open SamVerif.IntRange SamVerif.Assign SamVerif.Gates SamVerif.Scope
 #print axioms visit_wellNested
 #print axioms iflet_binding_not_in_else
 #print axioms binding_not_visible_after
+#print axioms abstract_targ_gate
+#print axioms instantiate_wf
+#print axioms conformance_inst_exact
+#print axioms unresolved_class_reported
+#print axioms unresolved_module_reported
+#print axioms unresolved_member_reported
+#print axioms cyclic_flag_monotone
+#print axioms cycle_detected
+#print axioms static_error_never_compiled
+#print axioms nonexhaustive_match_never_compiled
+#print axioms exhaustive_match_no_error
